@@ -711,7 +711,12 @@ class Povm(QOperation):
 
             # calculate hss
             for matrix in self.matrices_with_sparsity():
-                sqrt_matrix = sqrtm(matrix)
+                # principal square root of the Hermitian element by its spectral decomposition
+                # (scipy.linalg.sqrtm is unreliable, up to nan, for singular matrices)
+                eigenvals, eigenvecs = np.linalg.eigh(matrix)
+                sqrt_matrix = (
+                    eigenvecs * np.emath.sqrt(eigenvals)
+                ) @ eigenvecs.conjugate().T
                 hs_cb = np.kron(sqrt_matrix, sqrt_matrix.conjugate())
                 hs_gb = convert_hs(
                     hs_cb,
